@@ -852,8 +852,13 @@ func (n *IncludeNode) Render(w io.Writer, ctx *RenderContext) error {
 	}
 
 	// Need a new context for 'only' mode, sandboxed mode, or with variables
-	includeCtx := ctx
-	if n.only || n.sandboxed {
+	var includeCtx *RenderContext
+	if !n.only && !n.sandboxed {
+		// 'with' variables are visible to the included template only
+		includeCtx = ctx.Clone()
+		includeCtx.lastLoadedTemplate = template
+		defer includeCtx.Release()
+	} else {
 		var contextVars map[string]interface{}
 
 		if n.only {
